@@ -2,14 +2,15 @@ CONSTANTS
   Keys <- K
   Leaves <- L
   Programs <- Progs
-  MaxBuilds = 3
-  MaxMutates = 2
-  MaxRestarts = 0
-  MaxCancels = 0
+  MaxBuilds = 2
+  MaxMutates = 1
+  MaxRestarts = 1
+  MaxCancels = 1
   MaxCrashes = 0
-  WithDB = {FALSE}
+  WithDB = {TRUE, FALSE}
   Vers = {1}
   CycleLists <- CL
+  Reprog = "one"
 INIT MCInit
 NEXT MCNext
 INVARIANT CleanResult
